@@ -5,6 +5,17 @@ Responses are built as data objects from the signer's domain (1..9 bundles; ZSKs
 `>`-boundary values of the duration writer; ids/serials in and slightly outside the domain).  Real RSA
 signatures (fixtures/keys.json) where validate_response is exercised, arbitrary base64 text otherwise.
 
+SHARED KEY TAGS.  The key tag is a 16-bit checksum, not an identity: nothing the signer checks keeps two different keys
+of one bundle from having the same tag (validate_signatures refuses duplicate key IDENTIFIERS only).  A dedicated
+stream (`shared-tag:*`, every run, n = 1..9 bundles, real and arbitrary signatures) therefore holds bundles in which
+2..4 different keys share a key tag, in every role combination ZSK/ZSK, ZSK/KSK, KSK/KSK, with a revoked KSK (385),
+signing and non-signing: (i) the fixture `twins` (fixtures/special.json: pairs of real RSA keys with equal tag under
+equal flags), both signing when they are KSKs, (ii) keys whose public material is solved for the tag of a victim key of
+the bundle (keys.craft_public_key_with_tag: public material only; such keys never sign, which is what ZSKs and
+stand-by KSKs do in an SKR).  Their tags are genuine (RFC 4034 App. B of their own RDATA).  These responses go through
+(a)-(d) like all others, one of them is an every-prefix file of (e).  The writer's order among equal tags is Python's
+stable sort of the set's iteration order; the model (List.mergeSort, stable) is given the same order.
+
 For every response:
   (a) skr_to_xml(response) text  ==  model text (lean/Kskm/SkrXml.lean), byte for byte       [tie]
   (b) response_from_xml(text) == response (pydantic equality: sets as sets)                   [property]
@@ -13,7 +24,7 @@ For every response:
       small RELAX NG compact interpreter below: order, cardinalities, attributes, xsd datatypes),
       equals the model's `treeOf`, and an independent extractor gets the same response out of it [property]
       + Key elements appear in ascending keyTag order (output.py: "deterministic order")
-  (e) truncation: every proper prefix (every byte offset) of three emitted files either fails to load
+  (e) truncation: every proper prefix (every byte offset) of four emitted files (one with shared key tags) either fails to load
       (decode + response_from_xml + validate_response, as load_skr does) or loads to the identical
       response — never to a different valid response                                          [property]
   (f) boundary witnesses (multi-line element text F6, year < 1000 F7, entity / quote / tab characters,
@@ -153,8 +164,37 @@ def fake_b64(r: Any, n: int) -> bytes:
     return base64.b64encode(r.randbytes(n))
 
 
-def mk_bundle(r: Any, idx: int, start_us: int, *, real: bool, alg: int, ids: list[str], n_zsk: int, n_ksk: int, revoked: bool, n_sig: int, tz: Any, pool: dict[int, list[Any]], ttl: int) -> Any:
-    """One ResponseBundle: ZSKs (256) + KSKs (257) [+ one revoked KSK (385)], signed by n_sig KSKs."""
+def key_from_public(pk: bytes, alg: int, ident: str, ttl: int, flags: int) -> Any:
+    """A repo `Key` for an RFC 3110 public key field (public material only), tag computed from its own RDATA."""
+    from kskm.common.data import AlgorithmDNSSEC
+    from kskm.common.dnssec import public_key_to_dnssec_key
+
+    return public_key_to_dnssec_key(public_key=base64.b64encode(pk), key_identifier=ident, algorithm=AlgorithmDNSSEC(alg), ttl=ttl, flags=flags)
+
+
+ROLE = {256: "ZSK", 257: "KSK", 385: "REV"}
+
+
+def shared_tag_groups(bundle: Any) -> list[str]:
+    """Role combinations ("KSK/ZSK", "ZSK/ZSK", "KSK/KSK/REV", …) of the keys of `bundle` that share a key tag."""
+    by_tag: dict[int, list[Any]] = {}
+    for k in bundle.keys:
+        by_tag.setdefault(k.key_tag, []).append(k)
+    return ["/".join(sorted(ROLE.get(k.flags, str(k.flags)) for k in ks)) for ks in by_tag.values() if len(ks) > 1]
+
+
+def pick_collide(r: Any) -> dict[str, Any]:
+    """What to add to a bundle so that different keys share a key tag: the real twins (equal flags: two ZSKs, two KSKs
+    or two revoked KSKs) and / or 1..2 keys crafted to the tag of a victim key, each with flags 256 / 257 / 385."""
+    x = r.random()
+    twins = None if x < 0.45 else r.choice([256, 257, 257, 385])
+    n_crafted = r.choice([1, 1, 2]) if twins is None else r.choice([0, 0, 1])
+    return {"twins": twins, "crafted": [r.choice([256, 256, 257, 385]) for _ in range(n_crafted)]}
+
+
+def mk_bundle(r: Any, idx: int, start_us: int, *, real: bool, alg: int, ids: list[str], n_zsk: int, n_ksk: int, revoked: bool, n_sig: int, tz: Any, pool: dict[int, list[Any]], ttl: int, collide: dict[str, Any] | None = None) -> Any:
+    """One ResponseBundle: ZSKs (256) + KSKs (257) [+ one revoked KSK (385)], signed by n_sig KSKs.
+    `collide` (see pick_collide) adds keys that share a key tag with another key of the bundle."""
     import keys as K
     from kskm.common.data import AlgorithmDNSSEC, Signature, TypeDNSSEC
     from kskm.skr.data import ResponseBundle
@@ -184,6 +224,21 @@ def mk_bundle(r: Any, idx: int, start_us: int, *, real: bool, alg: int, ids: lis
             k = K.make_zsk(tk, alg, ident(), ttl=ttl, flags=257).as_revoked()
             keys.append(k)
             ksks.append((k, tk))
+    if collide:
+        if collide["twins"] is not None:
+            # two different real keys, equal flags, equal tag; as KSKs / revoked KSKs they can both sign
+            fl = collide["twins"]
+            for tk in r.choice(K.special()["twins"]):
+                k = K.make_zsk(tk, alg, ident(), ttl=ttl, flags=257).as_revoked() if fl == 385 else K.make_zsk(tk, alg, ident(), ttl=ttl, flags=fl)
+                keys.append(k)
+                if fl != 256:
+                    ksks.append((k, tk))
+            if r.random() < 0.5:
+                r.shuffle(ksks)
+        for fl in collide["crafted"]:
+            victim = r.choice(keys)
+            pk = K.craft_public_key_with_tag(victim.key_tag, fl, alg, r, n_len=r.choice([128, 128, 256]))
+            keys.append(key_from_public(pk, alg, ident(), ttl, fl))
     signers = ksks[-n_sig:] if n_sig <= len(ksks) else ksks
     if real:
         sigs = K.sign_bundle_keys(keys, signers, inc, exp, ttl=ttl)
@@ -209,7 +264,8 @@ def mk_bundle(r: Any, idx: int, start_us: int, *, real: bool, alg: int, ids: lis
     return ResponseBundle(id=r.choice(ids) + f"-{idx}", inception=inc, expiration=exp, keys=set(keys), signatures=sigs)
 
 
-def mk_response(r: Any, n_bundles: int, *, real: bool, ids: list[str] | None = None, n_algs: tuple[int, int] = (1, 1), serial: int | None = None, start_us: int | None = None, tz: Any = timezone.utc, pool: dict[int, list[Any]] | None = None) -> Any:
+def mk_response(r: Any, n_bundles: int, *, real: bool, ids: list[str] | None = None, n_algs: tuple[int, int] = (1, 1), serial: int | None = None, start_us: int | None = None, tz: Any = timezone.utc, pool: dict[int, list[Any]] | None = None, shared_tags: bool = False) -> Any:
+    """`shared_tags`: at least one bundle (each with probability 1/2, one for certain) holds keys sharing a key tag."""
     from kskm.skr.data import Response
 
     ids = ids or GOOD_IDS
@@ -219,12 +275,17 @@ def mk_response(r: Any, n_bundles: int, *, real: bool, ids: list[str] | None = N
         start_us = r.choice([1_500_000_000, 1_262_304_000, 4_000_000_000, 946_684_800, r.randrange(0, 2**32 - 120 * 86400)]) * SEC
     ttl = r.choice([172800, 3600, 0, 2**31 - 1])
     bundles = []
+    certain = r.randrange(n_bundles) if shared_tags and n_bundles else -1
     for i in range(n_bundles):
         n_ksk = r.choice([1, 1, 2])
         revoked = r.random() < 0.3
         n_sig = r.choice([1, 1, 2])
+        collide = pick_collide(r) if shared_tags and (i == certain or r.random() < 0.5) else None
+        if collide and collide["twins"] in (257, 385):
+            n_sig = r.choice([1, 2, 2, 3])
+        n_signers = n_ksk + (1 if revoked else 0) + (2 if collide and collide["twins"] in (257, 385) else 0)
         bundles.append(
-            mk_bundle(r, i, start_us, real=real, alg=alg, ids=ids, n_zsk=r.choice([1, 1, 2]), n_ksk=n_ksk, revoked=revoked, n_sig=min(n_sig, n_ksk + (1 if revoked else 0)), tz=tz, pool=pool, ttl=ttl)
+            mk_bundle(r, i, start_us, real=real, alg=alg, ids=ids, n_zsk=r.choice([1, 1, 2]), n_ksk=n_ksk, revoked=revoked, n_sig=min(n_sig, n_signers), tz=tz, pool=pool, ttl=ttl, collide=collide)
         )
     return Response(
         id=r.choice(ids),
@@ -754,6 +815,12 @@ def judge_response(res: Result, tag: str, resp: Any, model_text: Any, model_tree
     res.count({"tag": tag, "r": case["response"]})
     res.bump(f"bundles:{n}")
     res.bump("domain:in" if dom else f"domain:out:{why}")
+    groups = [g for b in resp.bundles for g in shared_tag_groups(b)]
+    case["shared_key_tags"] = groups
+    if groups:
+        res.bump("shared-key-tag:responses" + (":real-signatures" if real else ":arbitrary-signatures"))
+        for g in groups:
+            res.bump("shared-key-tag:bundle-group:" + g)
     impl_text = run_impl(lambda: skr_to_xml(resp), conv=lambda x: x)
     # (a) the tie
     if model_text is not None:
@@ -1305,9 +1372,11 @@ def run(tier: str, driver_ok: bool) -> Result:
     res = Result("C11")
     res.rule = (
         "responses as data objects: n = 1..9 bundles x {real RSA signatures, arbitrary base64}; per bundle 1-2 ZSKs, 1-2 KSKs, optional revoked KSK (385), "
-        "1-2 signatures; RSA-SHA256/512 policies with 1..3 entries (0 as boundary witness); durations from the boundary list "
+        "1-2 signatures; a stream of responses (n = 1..9, real and arbitrary signatures, one every-prefix file) whose bundles hold 2..4 DIFFERENT keys with the SAME key tag "
+        "(ZSK/ZSK, ZSK/KSK, KSK/KSK, with revoked KSK; real twin keys both signing, and non-signing keys crafted to a victim's tag; counters shared-key-tag:*); "
+        "RSA-SHA256/512 policies with 1..3 entries (0 as boundary witness); durations from the boundary list "
         f"{BOUNDARY_SECONDS} s + random whole seconds 0..400 d; ids from a dictionary (spaces, non-ASCII, '/', \"KSR\") and outside it (quotes, markup, control characters); "
-        "datetimes with UTC and non-UTC tzinfo; every byte offset of three emitted files; codecs on >= 20 000 values incl. malformed strings; "
+        "datetimes with UTC and non-UTC tzinfo; every byte offset of four emitted files; codecs on >= 20 000 values incl. malformed strings; "
         "non-trivial = distinct response / codec input"
     )
     r = lib.rng("C11")
@@ -1329,6 +1398,14 @@ def run(tier: str, driver_ok: bool) -> Result:
         for k in range(reps_fake):
             tz = r.choice([timezone.utc, timezone(timedelta(hours=5, minutes=30)), timezone(timedelta(hours=-8))])
             add(f"fake:{n}:{k}", mk_response(r, n, real=False, n_algs=(r.randrange(1, 4), r.randrange(1, 4)), tz=tz, pool=pool), False)
+    # bundles in which different keys share a key tag (module docstring): own PRNG stream, every run
+    r3 = lib.rng("C11:shared-tag")
+    for n in range(1, 10):
+        for k in range(4 if big else 2):
+            add(f"shared-tag:real:{n}:{k}", mk_response(r3, n, real=True, pool=pool, shared_tags=True), True)
+        for k in range(12 if big else 4):
+            tz = r3.choice([timezone.utc, timezone(timedelta(hours=5, minutes=30)), timezone(timedelta(hours=-8))])
+            add(f"shared-tag:fake:{n}:{k}", mk_response(r3, n, real=False, n_algs=(r3.randrange(1, 4), r3.randrange(1, 4)), tz=tz, pool=pool, shared_tags=True), False)
     # duration boundary lattice: every boundary value in every policy field position
     for i, s in enumerate(BOUNDARY_SECONDS):
         base = mk_response(r, 2, real=False, pool=pool)
@@ -1358,6 +1435,7 @@ def run(tier: str, driver_ok: bool) -> Result:
         ("nine-bundles", mk_response(r2, 9, real=True, pool=pool), 9),
         ("three-bundles-policy-2", mk_response(r2, 3, real=True, pool=pool), 2),  # a cut must not turn 3 bundles into an acceptable 2
     ]
+    trunc.append(("two-bundles-shared-key-tags", mk_response(lib.rng("C11:trunc:shared-tag"), 2, real=True, pool=pool, shared_tags=True), 2))
     if big:
         trunc.append(("five-bundles", mk_response(r2, 5, real=True, pool=pool), 5))
         trunc.append(("one-bundle", mk_response(r2, 1, real=True, pool=pool), 1))
